@@ -4,6 +4,7 @@
   (every selection, every operation, every fragment definition); the text is at least that long.
 -/
 import AGV.Core.Types
+import AGV.Core.VSchema
 
 namespace AGV.Spec.Cost
 open AGV.Core
@@ -49,5 +50,100 @@ def overlapBound (d : Doc) : Nat := 2 * size d * size d
 /-- the property on the observed counters -/
 def within (strict : Bool) (d : Doc) (visits overlapSel : Nat) : Bool :=
   visits ≤ visitBound strict d && overlapSel ≤ overlapBound d
+
+-- ------------------------------------------------------------------ input values (value checking work)
+
+mutual
+/-- syntax nodes of a constant input value (a list or an object counts itself and its members) -/
+def gsize : GValue → Nat
+  | .list xs => 1 + gsizeList xs
+  | .obj fs => 1 + gsizeFields fs
+  | _ => 1
+def gsizeList : List GValue → Nat
+  | [] => 0
+  | x :: xs => gsize x + gsizeList xs
+def gsizeFields : List (String × GValue) → Nat
+  | [] => 0
+  | (_, x) :: xs => gsize x + gsizeFields xs
+end
+
+/-- list / non-null layers of a type (`[[Int!]]!` has 4) -/
+def wraps : TypeRef → Nat
+  | .named _ => 0
+  | .list t => 1 + wraps t
+  | .nonNull t => 1 + wraps t
+
+/-- what the property requires of checking ONE input value `v` against a type with `w` list /
+    non-null layers, when no input-object field type of the schema has more than `W` layers:
+    every node of the value is looked at once per layer of the type it is checked against -/
+def valueBound (W w : Nat) (v : GValue) : Nat := (1 + max w W) * gsize v
+
+def maxl (l : List Nat) : Nat := l.foldr max 0
+
+def argsWraps (as : List ArgDef) : Nat := maxl (as.map fun a => wraps a.ty)
+
+/-- the most list / non-null layers of any input type the schema mentions (input-object fields,
+    field arguments, directive arguments) -/
+def schemaWraps (S : VSchema) : Nat :=
+  max (maxl (S.inputs.map fun i => argsWraps i.fields))
+    (max (maxl (S.base.types.map fun t => maxl (t.fields.map fun f => argsWraps f.args)))
+      (maxl (S.dirs.map fun d => argsWraps d.args)))
+
+/-- … of any variable type written in the document -/
+def docWraps (d : Doc) : Nat := maxl (d.ops.map fun o => maxl (o.vars.map fun v => wraps v.ty))
+
+mutual
+/-- nodes of a value as written, a variable counting as the value supplied for it (1 if none) -/
+def dsize (vars : List (String × GValue)) : DValue → Nat
+  | .var n => (match vars.find? (·.1 = n) with
+      | some p => gsize p.2
+      | none => 1)
+  | .list xs => 1 + dsizeList vars xs
+  | .obj fs => 1 + dsizeFields vars fs
+  | _ => 1
+def dsizeList (vars : List (String × GValue)) : List DValue → Nat
+  | [] => 0
+  | x :: xs => dsize vars x + dsizeList vars xs
+def dsizeFields (vars : List (String × GValue)) : List (String × DValue) → Nat
+  | [] => 0
+  | (_, x) :: xs => dsize vars x + dsizeFields vars xs
+end
+
+def argsSize (vars : List (String × GValue)) : List (String × DValue) → Nat
+  | [] => 0
+  | a :: as => dsize vars a.2 + argsSize vars as
+
+def dirsSize (vars : List (String × GValue)) : List Dir → Nat
+  | [] => 0
+  | d :: ds => argsSize vars d.args + dirsSize vars ds
+
+mutual
+/-- value nodes of all arguments (of fields and directives) below a selection -/
+def selValues (vars : List (String × GValue)) : Sel → Nat
+  | .field _ _ args dirs sub _ => argsSize vars args + dirsSize vars dirs + selsValues vars sub
+  | .spread _ dirs _ => dirsSize vars dirs
+  | .inline _ dirs sub _ => dirsSize vars dirs + selsValues vars sub
+def selsValues (vars : List (String × GValue)) : List Sel → Nat
+  | [] => 0
+  | s :: ss => selValues vars s + selsValues vars ss
+end
+
+def optSize : Option GValue → Nat
+  | some d => gsize d
+  | none => 0
+
+def defaultsSize : List VarDef → Nat
+  | [] => 0
+  | v :: vs => optSize v.default + defaultsSize vs
+
+/-- value nodes of the request: every argument value of the document (variables replaced by the
+    values the request supplies) and every variable default -/
+def docValues (vars : List (String × GValue)) (d : Doc) : Nat :=
+  (d.frags.map fun f => dirsSize vars f.dirs + selsValues vars f.sels).sum
+    + (d.ops.map fun o => dirsSize vars o.dirs + selsValues vars o.sels + defaultsSize o.vars).sum
+
+/-- the bound on the value checks of ONE walk over the document: every value node once per layer -/
+def valueBoundDoc (S : VSchema) (vars : List (String × GValue)) (d : Doc) : Nat :=
+  (1 + max (schemaWraps S) (docWraps d)) * docValues vars d
 
 end AGV.Spec.Cost
